@@ -3,6 +3,7 @@
 
 mod conformance;
 mod core;
+mod crash;
 mod engc;
 mod flood;
 mod fds;
@@ -140,6 +141,8 @@ fn main() {
             runner::run_check(prop.as_ref(), &cfg)
         }
         "replay" => {
+            crash::install();
+            crash::enter(255, 0);
             let path = args.get(2).cloned().unwrap_or_default();
             let mut replayed_prop = "?".to_string();
             if let Ok(t) = std::fs::read_to_string(&path) {
